@@ -123,6 +123,14 @@ def sc_start_lost():
             "0 cycle", "0 cycle", "0 root z 7a 2 0 1", "0 child1 y 79 z", "0 scope y", "0 localEnter 6c", "0 close", "0 close", "0 drop y", "0 drop z", "0 cycle", "0 stats"]
 
 
+def sc_start_on_full_default(extra):
+    """default configuration: a trace is started while the queue is exactly full (extra = 0) or full with signals parked
+    (extra > 0): the start command is lost, but span sets of that trace submitted after the queue has drained — a child,
+    the root itself — are still delivered (only what is submitted *while* the queue is full may be missing)"""
+    return ["0 spawn", "0 setReporter 0", "0 touch", "0 spam %d" % (10240 + extra), "0 root r 72 1 0 1", "0 cycle", "0 cycle",
+            "0 child1 c 63 r", "0 scope c", "0 localEnter 6c", "0 close", "0 close", "0 drop c", "0 drop r", "0 cycle", "0 cycle", "0 stats"]
+
+
 def sc_big_trace(cancelable, n=9000):
     """one thread finishes n children of the root and exits / hands back; the root is then finished on another
     thread; one cycle: every child must be in that cycle's report (no per-cycle cap on a queue's backlog)"""
@@ -220,6 +228,10 @@ def check_scenarios(impl_by_tag):
         if tag.startswith("recovery"):
             if sorted(x for x in n if x in ("z", "y", "l")) != ["l", "y", "z"]:
                 f.append("spans submitted after the queue had drained are missing: delivered %s" % n)
+        if tag.startswith("start-on-full-default"):
+            if sorted(x for x in n if x in ("r", "c", "l")) != ["c", "l", "r"]:
+                f.append("default configuration: the trace was started while the queue was full; the span sets submitted after it had drained "
+                         "(child 'c' with its local span 'l', root 'r') must still be delivered: delivered %s" % n)
         if tag.startswith("start-lost"):
             if sorted(x for x in n if x in ("z", "y", "l")) != ["l", "y", "z"]:
                 f.append("trace started after the queue drained must be complete: %s" % n)
@@ -259,7 +271,8 @@ def run(v, tier, seed, replay):
     # overload on the real queue (seq tier)
     scen = {}
     if not replay:
-        scen = {"cancel-on-full-1": sc_cancel_on_full(1), "cancel-on-full-0": sc_cancel_on_full(0), "finish-on-full": sc_finish_on_full(), "start-lost": sc_start_lost()}
+        scen = {"cancel-on-full-1": sc_cancel_on_full(1), "cancel-on-full-0": sc_cancel_on_full(0), "finish-on-full": sc_finish_on_full(), "start-lost": sc_start_lost(),
+                "start-on-full-default-0": sc_start_on_full_default(0), "start-on-full-default-60": sc_start_on_full_default(60)}
     tags = list(scen)
     s_impl = seqrun.run_impl([scen[t] for t in tags], jobs=4) if ok and tags else []
     s_model = seqrun.run_model([scen[t] for t in tags]) if tags else []
